@@ -136,12 +136,16 @@ func TestC18Histories(t *testing.T) {
 		tr := &hist.Trace{Params: p, Roles: hist.Roles(p, 1), Profile: prof}
 		c := &Case{Mode: "history", Trace: tr}
 		nb := u.Range(6, maxBlocks, "nblocks")
+		// temper of the history: mostly hostile inputs, or mostly ordinary use (a crash can be armed by accepted
+		// transactions and fired by a later ordinary one), with the node restarted rarely or often
+		temper := [][2]int{{70, 30}, {70, 30}, {15, 10}, {4, 8}}[u.N(4, "temper")]
+		restartPer := []int{30, 30, 6}[u.N(3, "restart-per")]
 		var g *hist.Gen
 		var last []txgen.Tx
 		blocks := 0
 		v, okTx := runHistory(h, c, func(w *hist.World, i int) (hist.Step, bool) {
 			if g == nil {
-				g = &hist.Gen{W: w, T: rt, Hostile: 70, Strange: 30, Kinds: hist.Profiles[prof], Excl: h.Excluded, Seen: map[string]int{}, TagsN: map[string]int{}}
+				g = &hist.Gen{W: w, T: rt, Hostile: temper[0], Strange: temper[1], RestartPer: restartPer, Kinds: hist.Profiles[prof], Excl: h.Excluded, Seen: map[string]int{}, TagsN: map[string]int{}}
 			}
 			if blocks >= nb {
 				return hist.Step{}, false
